@@ -5,7 +5,7 @@
 //	                                           Gen.fieldIndexPost, Gen.fieldIndexPrelude (token list)
 //	            Header.SearchIndex, ContainsObject → token lists
 //	utils.go    InStrSliceWithCaseInsensitive → Gen.inStrSliceCI
-//	view.go     View.Fix                     → Gen.fixHeaderEffects (the header loop), Gen.fixViewResets
+//	view.go     View.Fix                     → Gen.fixProjection, Gen.fixHeaderEffects (the header loop), Gen.fixViewResets
 //	            View.filter                  → Gen.filterKeeps : Tern → Bool
 //	lib/query/*.go  every assignment to .IsJoinColumn / .Aliases → Gen.headerFlagWrites
 //	load_view.go loadObject                  → Gen.tableKindOrder : the order in which a FROM name is tried
@@ -488,20 +488,22 @@ func genFix(out *strings.Builder) {
 	f := parseFile("lib/query/view.go")
 	fd := findFunc(f, "View", "Fix")
 	var hdrLoop *ast.RangeStmt
-	var after []ast.Stmt
+	var before, after []ast.Stmt
 	for _, s := range fd.Body.List {
-		if r, ok := s.(*ast.RangeStmt); ok && canon(r.X) == "view.selectFields" {
+		if r, ok := s.(*ast.RangeStmt); ok && canon(r.X) == "view.selectFields" && hdrLoop == nil {
 			hdrLoop = r
-			after = nil
 			continue
 		}
 		if hdrLoop != nil {
 			after = append(after, s)
+		} else {
+			before = append(before, s)
 		}
 	}
 	if hdrLoop == nil {
 		die("%s: View.Fix: the loop over view.selectFields that builds the new header was not found", pos(fd))
 	}
+	out.WriteString(leanList("fixProjection", "`View.Fix` before the header loop: when and how the records are re-projected onto the selected fields", stmtTokens(before)))
 	out.WriteString(leanList("fixHeaderEffects", "`View.Fix`: what is done to every field of the new header (loop over view.selectFields)", stmtTokens(hdrLoop.Body.List)))
 	out.WriteString(leanList("fixViewResets", "`View.Fix`: after the header loop", stmtTokens(after)))
 
